@@ -367,7 +367,11 @@ class IriUri(Stream):
 
     def cases(self, rng, tier):
         while True:
-            yield {"dir": rng.choice(["iri2uri", "uri2iri"]), "url": hs(rand_url(rng, malformed=0.03 if rng.random() < 0.3 else 0.0))}
+            if rng.random() < 0.1:
+                # outside the property's URL grammar: compared with the model only
+                yield {"dir": rng.choice(["iri2uri", "uri2iri"]), "url": hs(rand_weird_url(rng)), "model_only": True}
+            else:
+                yield {"dir": rng.choice(["iri2uri", "uri2iri"]), "url": hs(rand_url(rng, malformed=0.03 if rng.random() < 0.3 else 0.0))}
 
     def real(self, case):
         from werkzeug.urls import iri_to_uri, uri_to_iri
@@ -385,6 +389,8 @@ class IriUri(Stream):
         from werkzeug.urls import iri_to_uri, uri_to_iri
 
         url = unhs(case["url"])
+        if case.get("model_only"):
+            return None
         try:
             urlsplit(url).port
             (urlsplit(url).hostname or "").encode("idna")
@@ -582,6 +588,79 @@ class EnvironRoundtrip(Stream):
         yield {"path": case["path"], "query": [], "base": 0}
 
 
+
+class EnvironKernel(Stream):
+    """EnvironBuilder(path, base_url, query_string=<str>) -> environ -> Request fields  vs  Model.UrlEnviron"""
+
+    name = "environ-kernel"
+    QS = ["", "a=b", "a=b&c=d", "q=%C3%A9", "q=é", "x=1&x=2", "a+b=c%20d", "%zz", "k=%FF", "a=b#c", "é=ü&日本=😀", "a=%26%3D"]
+    corpus = [
+        {"path": hs(p), "base": b, "qs": hs(q)}
+        for p, b, q in [("/", 0, ""), ("/é/日本", 1, "q=é"), ("/a b", 2, "a=b"), ("/%41", 3, ""), ("/a\tb", 0, ""), ("/x?y", 0, "a=b"), ("//x/y", 0, ""), ("/a#b", 4, "k=%FF"), ("", 5, ""), ("rel/p", 6, ""), ("/%zz%", 7, "%zz"), ("/😀", 8, "é=ü")]
+    ]
+
+    def cases(self, rng, tier):
+        n = 0
+        limit = 1200 if tier == "quick" else 20000
+        while n < limit:
+            n += 1
+            segs = [rand_clean(rng, CLEAN + ["%41", "%2F", "%C3%A9", "%FF", "%"], 0, 4) for _ in range(rng.randrange(1, 4))]
+            yield {"path": hs("/" + "/".join(segs)), "base": rng.randrange(len(BASES)), "qs": hs(rng.choice(self.QS) if rng.random() < 0.7 else rand_text(rng, QUERY_EXTRA, malformed=0.05).replace("#", "%23"))}
+
+    @staticmethod
+    def base_url(case):
+        scheme, host, port, root = BASES[case["base"]]
+        return f"{scheme}://{host}{port}{root}/"
+
+    def real(self, case):
+        from werkzeug.test import EnvironBuilder
+        from werkzeug.wrappers import Request
+
+        b = EnvironBuilder(path=unhs(case["path"]), base_url=self.base_url(case), query_string=unhs(case["qs"]))
+        try:
+            env = b.get_environ()
+            req = Request(env)
+            return ",".join(hs(env[k]) for k in ("PATH_INFO", "SCRIPT_NAME", "QUERY_STRING", "HTTP_HOST", "wsgi.url_scheme")) + "|" + ",".join([hs(req.path), hs(req.root_path), hs(req.host), hs(req.url)])
+        finally:
+            b.close()
+
+    def model_line(self, case):
+        from werkzeug.sansio.utils import get_host
+        from werkzeug.urls import _decode_idna, iri_to_uri
+
+        base = self.base_url(case)
+        sp = urlsplit(base)
+        ra = sp._hostinfo[0] or ""
+        try:
+            ca = sp.hostname.encode("idna").decode("ascii")
+        except UnicodeError:
+            ca = None
+        ru, cu = "", None
+        try:
+            b2 = urlsplit(iri_to_uri(base))
+            host = get_host(b2.scheme, b2.netloc)
+            s2 = urlsplit(f"{b2.scheme}://{host}")
+            ru = s2._hostinfo[0] or ""
+            cu = _decode_idna(s2.hostname) if s2.hostname else None
+        except (ValueError, UnicodeError):
+            pass
+        # a path starting with '//' has a netloc of its own: ipaddress / NFKC verdicts for it
+        bo, no, _, _ = opaque_for(unhs(case["path"]))
+        return line("environ", case["path"], hs(base), case["qs"], hs(ra), opt(hs, ca), hs(ru), opt(hs, cu), "1" if bo else "0", "1" if no else "0")
+
+    def oracle(self, case, real_out):
+        path = unhs(case["path"])
+        if real_out.startswith("EXC") or any(c in path for c in "%?#\t\r\n") or path.startswith("//") or not path.startswith("/"):
+            return None  # outside the domain of the round-trip claim (see stream environ-roundtrip)
+        got = unhs(real_out.split("|")[1].split(",")[0])
+        if got != path:
+            return f"Request.path {got!r} != {path!r}"
+        return None
+
+    def bucket(self, case, real_out):
+        return real_out if real_out.startswith("EXC") else "ok"
+
+
 # ---------------------------------------------------------------------------
 
 MOUNT_KEYS = ["/api", "/api/v1", "/api/v1/users", "/static", "/a", "/a/b", "/a/b/c", "", "/", "/api/", "api", "/é", "/a b", "/apix", "/ap", "//", "/a//b"]
@@ -685,7 +764,7 @@ CHECK = Check(
     prop="C15",
     gen=["UrlTables"],
     modules=["WzVerif.Props.C15"],
-    streams=[QuoteKernel(), UrlsplitKernel(), IriUri(), EnvironRoundtrip(), Dispatcher()],
+    streams=[QuoteKernel(), UrlsplitKernel(), IriUri(), EnvironRoundtrip(), EnvironKernel(), Dispatcher()],
     assumptions=[
         "urllib.parse.urlsplit / urlunsplit (incl. tab/CR/LF and leading C0/space stripping, port validation, scheme lower-casing) and the IDNA codec are opaque: the harness splits with urllib, applies the IDNA step with the same calls the code makes, and hands components to the model; hosts that IDNA rejects and ports urlsplit rejects are outside the URL grammar",
         "urllib.parse.quote / unquote and bytes.decode with werkzeug's codec error handler are hand-modelled from CPython 3.12 (maximal-subpart error spans) and validated by stream quote-kernel, not verified",
